@@ -1,12 +1,14 @@
 #!/bin/bash
+# usage: tools_seeded_matrix.sh [glob] [append]
 # re-runs every seeded change in /verif/seeded against its property's own check (and extra checks
 # named in seeded/<id>/also.txt); writes seeded/RESULTS.jsonl.  /repo must be clean; each patch is
 # applied with `git -C /repo apply` and undone with `git -C /repo checkout -- .` straight afterwards.
 set -u
 cd /verif
-out=seeded/RESULTS.jsonl; : > $out
-for d in seeded/C*-*/; do
-  id=$(basename $d); prop=${id%-*}
+pat="${1:-C*-*}"
+out=seeded/RESULTS.jsonl; [ -n "${2:-}" ] || : > $out
+for d in seeded/$pat/; do
+  id=$(basename $d); prop=${id:0:3}
   checks="$prop"; [ -f $d/also.txt ] && checks="$checks $(cat $d/also.txt)"
   if [ -n "$(git -C /repo status --porcelain --untracked-files=no)" ]; then echo "/repo not clean"; exit 2; fi
   git -C /repo apply /verif/$d/patch.diff || { echo "{\"id\":\"$id\",\"error\":\"patch does not apply\"}" >> $out; continue; }
